@@ -31,7 +31,7 @@ from .. import q
 from ..model import AnalysisError
 from ..rules import call_sites, require_before, node_calls
 from ..mutate import mutate, remove_stmts, replace_expr, replace_stmt, parse_stmt, parse_expr
-from ..x_http import norm_func, atom_edges, leads_to_raise, only_through, reach_without, node_mentions, single_bindings, canon_atom, contains, raised_class
+from ..x_http import norm_func, Flow, atom_edges, leads_to_raise, only_through, reach_without, node_mentions, single_bindings, canon_atom, contains, raised_class
 
 TECHNIQUE = "branch-edge guard dominance (limit comparison before delivery) + who-reads-which-limit (fresh vs. by-value copy) + bounded-read lint"
 EXPLANATION = (
@@ -56,6 +56,16 @@ def _uncast(e):
 def _F(ck, rel, qn):
     """the anchored function with private single-purpose helpers inlined (same qualified name)"""
     return norm_func(ck.repo, ck.func(rel, qn))
+
+
+def _x(f, e):
+    """``e`` with local aliases of ``f`` resolved through unique reaching definitions (None stays None)"""
+    if e is None:
+        return None
+    try:
+        return Flow(f).expand(e)
+    except AnalysisError:
+        return e
 
 
 def limit_pred(value_is, limit_is):
@@ -113,7 +123,7 @@ def check_bounded_reads(ck):
             ck.use(f)
             kind = c.func.attr
             if kind in ("read_until_regex", "read_until"):
-                mb = q.kwarg(c, "max_bytes") or q.arg(c, 1)
+                mb = _x(f, q.kwarg(c, "max_bytes") or q.arg(c, 1))
                 ok = mb is not None and not q.is_const(mb, None)
                 ck.ob(R, f, c, ok, "%s passes an explicit max_bytes bound" % kind)
                 if kind == "read_until_regex":
@@ -121,7 +131,7 @@ def check_bounded_reads(ck):
                 elif ok:
                     ck.ob(R, f, c, isinstance(mb, ast.Constant) and type(mb.value) is int and 0 < mb.value <= 4096, "a protocol line (chunk size) is read within a small constant bound")
             else:
-                sz = q.arg(c, 0, "num_bytes")
+                sz = _x(f, q.arg(c, 0, "num_bytes"))
                 okc = isinstance(sz, ast.Constant) and type(sz.value) is int and sz.value <= 65536
                 okm = isinstance(sz, ast.Call) and isinstance(sz.func, ast.Name) and sz.func.id == "min" and any(q.dotted(a) == "self.params.chunk_size" or (isinstance(a, ast.Constant) and type(a.value) is int) for a in sz.args)
                 ck.ob(R, f, c, okc or okm, "read_bytes asks for at most params.chunk_size (or a constant) bytes at a time")
@@ -149,206 +159,359 @@ def check_iostream(ck):
         ck.floor(R, len(hs), 1, "UnsatisfiableReadError handlers in %s" % name)
         for h in hs:
             ck.ob(R, f, h, any(q.is_call(c, "self.close") for c in q.calls(h)), "an unsatisfiable read (limit exceeded) closes the stream", construct="except UnsatisfiableReadError in %s" % name)
-    cm = _F(ck, IO, "BaseIOStream._check_max_bytes")
-    ps = [p for p in cm.params() if p != "self"]
-    size_p = ps[-1]
-    pred = limit_pred(lambda e: q.dotted(e) == size_p, lambda e: q.dotted(e) == "self._read_max_bytes")
-    over = _over_edges(cm.cfg, pred)
-    ok, n = leads_to_raise(cm.cfg, over, lambda cls: cls is not None and cls.endswith("UnsatisfiableReadError"))
-    ck.ob(R, cm, cm.node, ok and n > 0, "_check_max_bytes raises UnsatisfiableReadError when size > max_bytes", construct="size > self._read_max_bytes")
+    # _find_read_pos (with _check_max_bytes inlined), folded on concrete buffers: a position beyond max_bytes is never
+    # returned, and a buffer that already exceeds max_bytes without a match is fatal
+    import re as _re
+    from ..x_absint import Evaluator, Obj, UNK
     fr = _F(ck, IO, "BaseIOStream._find_read_pos")
-    cfg = fr.cfg
-    chk = {n.id for n in cfg.stmt_nodes(node_calls("self._check_max_bytes"))}
-    ck.floor(R, len(chk), 1, "_check_max_bytes calls in _find_read_pos")
-    delim = atom_edges(cfg, lambda a: False if (isinstance(a, ast.Compare) and isinstance(a.ops[0], ast.Is) and q.dotted(a.left) in ("self._read_delimiter", "self._read_regex") and q.is_const(a.comparators[0], None)) else None)
-    in_delim = set()
-    for e in delim:
-        in_delim |= reach_without(cfg, (), start=e[1], follow_exc=False)
-    unchecked = reach_without(cfg, (), stop=lambda n: n.id in chk)
-    k = 0
-    for r in cfg.stmt_nodes(lambda n: n.kind == "stmt" and isinstance(n.ast, ast.Return) and n.ast.value is not None and not q.is_const(n.ast.value, None)):
-        if r.id in in_delim:
-            k += 1
-            ck.ob(R, fr, r.ast, r.id not in unchecked, "a delimiter/regex read position is returned only after _check_max_bytes accepted its size")
-    ck.floor(R, k, 2, "position returns in the delimiter/regex branches")
-    # the not-found path is also checked (so an endless header block is cut off at the bound)
-    empty = atom_edges(cfg, lambda a: False if q.dotted(a) == "self._read_buffer" else None)
-    for e in delim:
-        sub = reach_without(cfg, empty, start=e[1], follow_exc=False, stop=lambda n: n.id in chk)
-        falls = [n for n in sub if n == cfg.exit.id or (cfg.nodes[n].kind == "stmt" and isinstance(cfg.nodes[n].ast, ast.Return))]
-        ck.ob(R, fr, cfg.nodes[e[0]].ast, not falls, "when the delimiter is not found in a non-empty buffer, the buffered size is checked against max_bytes before giving up", construct="not-found path of %s" % q.unparse(cfg.nodes[e[0]].ast))
+    cm = ck.func(IO, "BaseIOStream._check_max_bytes")
+
+    def fold(buf, mode, max_bytes):
+        ev = Evaluator()
+        ev.inline = lambda d: cm.node if d == "self._check_max_bytes" else None
+        me = Obj("self", _read_buffer=bytearray(buf), _read_buffer_size=len(buf), _read_bytes=None, _read_partial=False,
+                 _read_delimiter=(b"\r\n" if mode == "delimiter" else None), _read_regex=(_re.compile(b"\r?\n\r?\n") if mode == "regex" else None),
+                 _read_max_bytes=max_bytes)
+        return ev.run(fr.node, {"self": me})
+
+    n = 0
+    for mode, term in (("delimiter", b"\r\n"), ("regex", b"\r\n\r\n")):
+        cases = [
+            (b"abcd" + term, 10, ("return", 4 + len(term))),          # found within the bound
+            (b"abcdefgh" + term, 10, ("raise", None) if 8 + len(term) > 10 else ("return", 8 + len(term))),
+            (b"abcdefghijkl" + term, 10, ("raise", None)),              # found, but beyond the bound
+            (b"abcdefghijkl", 10, ("raise", None)),                     # not found and already beyond the bound
+            (b"abcd", 10, ("return", None)),                            # not found yet, keep reading
+            (b"", 10, ("return", None)),
+            (b"abcdefghijkl" + term, None, ("return", 12 + len(term))), # unbounded read
+        ]
+        for buf, mb, want in cases:
+            outs = fold(buf, mode, mb)
+            if not outs:
+                raise AnalysisError("_find_read_pos: no outcome")
+            for o in outs:
+                n += 1
+                if o.kind == "return" and o.value is UNK:
+                    raise AnalysisError("_find_read_pos: result not decidable by folding (%s, %d buffered bytes)" % (mode, len(buf)))
+                got = ("raise", None) if o.kind == "raise" else ("return", o.value if o.kind == "return" else None)
+                okc = got == want and (o.kind != "raise" or (o.value or "").endswith("UnsatisfiableReadError"))
+                ck.ob(R, fr, fr.node, okc, "%s read, %d bytes buffered, max_bytes=%r: %s (got %s%s)" % (
+                    mode, len(buf), mb, "UnsatisfiableReadError" if want[0] == "raise" else ("position %r" % (want[1],)), got[0], "" if o.kind == "raise" else " %r" % (got[1],)),
+                    construct="_find_read_pos %s buffered=%d max=%r" % (mode, len(buf), mb))
+    ck.floor(R, n, 14, "folded _find_read_pos outcomes")
 
     R = "C04.buffer-cap"
     f = _F(ck, IO, "BaseIOStream._read_to_buffer")
-    cfg = f.cfg
-    incs = cfg.stmt_nodes(lambda n: n.kind == "stmt" and isinstance(n.ast, ast.AugAssign) and isinstance(n.ast.op, ast.Add) and q.dotted(n.ast.target) == "self._read_buffer_size")
-    ck.floor(R, len(incs), 1, "increments of _read_buffer_size in _read_to_buffer")
-    pred = limit_pred(lambda e: q.dotted(e) == "self._read_buffer_size", lambda e: q.dotted(e) == "self.max_buffer_size")
-    okedges = atom_edges(cfg, pred)
-    over = _over_edges(cfg, pred)
-    for inc in incs:
-        after = reach_without(cfg, okedges, start=inc.id, follow_exc=False)
-        rets = [cfg.nodes[i] for i in after if cfg.nodes[i].kind == "stmt" and isinstance(cfg.nodes[i].ast, ast.Return)]
-        ck.ob(R, f, inc.ast, not rets and cfg.exit.id not in after, "after bytes were appended, _read_to_buffer returns only if the buffer is within max_buffer_size")
-    okr, n = leads_to_raise(cfg, over, lambda cls: cls is not None)
-    ck.ob(R, f, f.node, okr and n > 0, "an over-full read buffer raises", construct="buffer over max_buffer_size -> raise")
-    closes = {n.id for n in cfg.stmt_nodes(node_calls("self.close"))}
-    for e in over:
-        sub = reach_without(cfg, (), start=e[1], follow_exc=False, stop=lambda n: n.id in closes)
-        raises = [i for i in sub if cfg.nodes[i].kind == "stmt" and isinstance(cfg.nodes[i].ast, ast.Raise)]
-        ck.ob(R, f, cfg.nodes[e[0]].ast, not raises, "an over-full read buffer closes the stream before raising")
+    from ..x_absint import Raised
+    n = 0
+    for before, got_bytes, cap, want in ((8, 2, 10, "return"), (8, 3, 10, "raise"), (0, 11, 10, "raise"), (0, 10, 10, "return"), (5, None, 10, "return0"), (5, 0, 10, "return0")):
+        closed = []
+
+        def fb(st, c, d, args, got_bytes=got_bytes, closed=closed):
+            nm = q.call_attr(c)
+            if nm == "read_from_fd":
+                return got_bytes
+            if d == "self.close":
+                closed.append(True)
+                return None
+            if nm in ("bytearray", "memoryview"):
+                return UNK
+            return NotImplemented
+
+        ev = Evaluator()
+        ev.fallback = fb
+        me = Obj("self", _read_buffer_size=before, max_buffer_size=cap, _user_read_buffer=False, read_chunk_size=4096, _read_buffer=UNK)
+        outs = ev.run(f.node, {"self": me})
+        if not outs:
+            raise AnalysisError("_read_to_buffer: no outcome")
+        for o in outs:
+            n += 1
+            size = o.state.env["self"].attrs.get("_read_buffer_size")
+            tag = "%d bytes buffered, %r read, max_buffer_size %d" % (before, got_bytes, cap)
+            if want == "raise":
+                ck.ob(R, f, f.node, o.kind == "raise" and bool(closed), "%s: the stream is closed and an error raised (got %s%s)" % (tag, o.value if o.kind == "raise" else o.kind, "" if closed else ", stream not closed"), construct="_read_to_buffer %s" % tag)
+            elif want == "return":
+                ck.ob(R, f, f.node, o.kind == "return" and o.value == got_bytes and size == before + got_bytes, "%s: the bytes are accepted (got %s)" % (tag, o.value if o.kind != "raise" else "raise %s" % o.value), construct="_read_to_buffer %s" % tag)
+            else:
+                ck.ob(R, f, f.node, o.kind == "return" and o.value == 0 and size == before, "%s: nothing is buffered and 0 is returned (got %s)" % (tag, o.value), construct="_read_to_buffer %s" % tag)
+    ck.floor(R, n, 6, "folded _read_to_buffer outcomes")
 
 
 def check_content_length(ck, LIVE, R="C04.content-length-limit"):
+    """_read_body folded on concrete Content-Length values around the live limit (c08.eval_read_body): the configured
+    value and the stream's buffer size are set to decoys, so only a comparison with the live field can refuse."""
+    from . import c08 as _c08
+    if LIVE != "self._max_body_size":
+        raise AnalysisError("the live body limit is no longer self._max_body_size: update the Content-Length scenarios")
     fi = _F(ck, H1, "HTTP1Connection._read_body")
-    cfg = fi.cfg
-    fixed = call_sites(fi, "self._read_fixed_body")
-    ck.floor(R, len(fixed), 1, "_read_fixed_body call sites")
-    for node, c in fixed:
-        a0 = q.arg(c, 0)
-        if not isinstance(a0, ast.Name):
-            raise AnalysisError("_read_fixed_body length argument of unknown shape at %s" % fi.site(c))
-        L = a0.id
-        is_val = lambda e: q.dotted(e) == L
-        pred = limit_pred(is_val, lambda e: q.dotted(e) == LIVE)
-        ok_e = atom_edges(cfg, pred)
-        # the limit applies whenever a length was parsed: paths on which the length is None/0 by construction are exempt
-        const_assign = {n.id for n in cfg.stmt_nodes(lambda n: n.kind == "stmt" and isinstance(n.ast, (ast.Assign, ast.AnnAssign)) and L in q.assigned_paths(n.ast) and isinstance(n.ast.value, ast.Constant))}
-        r = reach_without(cfg, ok_e, stop=lambda n: n.id in const_assign)
-        guarded = node.id not in r
-        what = "the fixed-length reader starts only after Content-Length <= %s held (live limit, '>'/'<=' comparison)" % LIVE
-        if not guarded:
-            others = [n for n in cfg.stmt_nodes(lambda n: n.kind == "test") if any_cmp(is_val)(canon_atom(n.ast)[0])]
-            if others:
-                what += " — found only %s" % q.unparse(others[0].ast)
-        ck.ob(R, fi, c, guarded, what)
-        okr, n = leads_to_raise(cfg, _over_edges(cfg, pred), _is_input_error)
-        ck.ob(R, fi, c, okr and n > 0, "a Content-Length above the limit raises HTTPInputError (400, close)", construct="Content-Length over limit -> raise")
+    n = 0
+    for is_client in (False, True):
+        for cl, want in (("999", ("fixed", 999)), ("1000", ("fixed", 1000)), ("1001", "error"), ("0", ("fixed", 0)), ("99999", "error"), ("1000,1000", ("fixed", 1000)), ("1001, 1001", "error")):
+            got = _c08.eval_read_body(ck, fi, 200, cl, None, limit=1000, is_client=is_client)
+            n += 1
+            if any(isinstance(g, tuple) and g and g[0] == "?" for g in got) or any(isinstance(g, str) and g.startswith("raise:") for g in got):
+                raise AnalysisError("_read_body: outcome for Content-Length %s not decidable (%s)" % (cl, sorted(map(repr, got))))
+            ck.ob(R, fi, fi.node, got == {want}, "Content-Length %s with a live limit of 1000 (%s): %s — got %s" % (
+                cl, "client" if is_client else "server", "HTTPInputError before any body byte is read" if want == "error" else "fixed-length reader for %d bytes" % want[1], sorted(map(repr, got))),
+                construct="Content-Length %s limit 1000 %s" % (cl, "client" if is_client else "server"))
+    ck.floor(R, n, 10, "folded Content-Length outcomes")
 
 
-def _accumulators(fi, loop_scope=None):
-    """{accumulator path: [AugAssign nodes]} for ``X += <expr>`` in fi."""
-    out = {}
-    for st in q.walk_body(fi.node):
-        if isinstance(st, ast.AugAssign) and isinstance(st.op, ast.Add):
-            d = q.dotted(st.target)
-            if d:
-                out.setdefault(d, []).append(st)
-        elif isinstance(st, ast.Assign) and len(st.targets) == 1 and isinstance(st.value, ast.BinOp) and isinstance(st.value.op, ast.Add):
-            # x = x + y  /  x = y + x   is the same accumulation as  x += y
-            d = q.dotted(st.targets[0])
-            l, r = q.dotted(st.value.left), q.dotted(st.value.right)
-            if d and (l == d or r == d):
-                inc = st.value.right if l == d else st.value.left
-                aug = ast.copy_location(ast.AugAssign(target=st.targets[0], op=ast.Add(), value=inc), st)
-                aug._orig = st
-                out.setdefault(d, []).append(aug)
-    return out
+# ---------------------------------------------------------------------------------------
+# body readers decided by abstract interpretation on scripted streams (no tornado code is run: the function's AST
+# is folded by vt.x_absint over stub objects; forms like `t = total + n; if t > limit; total = t` need no recogniser)
+
+
+def _hex_hook(st, s=None, *a):
+    from ..x_absint import UNK, Raised
+    if not isinstance(s, str):
+        return UNK
+    if not s or any(ch not in "0123456789abcdefABCDEF" for ch in s):
+        raise Raised("ValueError")
+    return int(s, 16)
+
+
+def _to_str_hook(st, b=None, *a):
+    from ..x_absint import UNK, Raised
+    if isinstance(b, str):
+        return b
+    if isinstance(b, (bytes, bytearray)):
+        try:
+            return bytes(b).decode("utf-8")
+        except UnicodeDecodeError:
+            raise Raised("UnicodeDecodeError")
+    return UNK
+
+
+def eval_chunked(ck, fi, sizes, limit, is_client=False, write_finished=False):
+    """Fold _read_chunked_body on a scripted stream that sends chunks of the given sizes.  Returns a list of
+    (kind, exception class, bytes delivered to the delegate, body bytes read from the stream) per path."""
+    from ..x_absint import Evaluator, Obj, UNK, Raised
+    from ..x_http import self_modsets
+    ps = [p for p in fi.params() if p != "self"]
+    script = [("%x\r\n" % n).encode() for n in sizes] + [b"0\r\n"]
+    ms = self_modsets(ck.repo, H1, "HTTP1Connection")
+
+    def stream_of(st):
+        return st.env["self"].attrs["stream"]
+
+    def read_until(st, *a):
+        s_ = stream_of(st)
+        i_ = s_.attrs["_pos"]
+        if i_ >= len(script):
+            raise Raised("iostream.StreamClosedError")
+        s_.attrs["_pos"] = i_ + 1
+        return script[i_]
+
+    def fb(st, c, d, args):
+        nm = q.call_attr(c)
+        if nm == "read_bytes" and args and isinstance(args[0], int):
+            n = args[0]
+            partial = any(k.arg == "partial" for k in c.keywords) or len(args) > 1
+            s_ = stream_of(st)
+            if not isinstance(c.args[0], ast.Constant):
+                got = (n + 1) // 2 if partial else n  # a partial read returns fewer bytes than asked for
+                s_.attrs["_data_read"] = s_.attrs["_data_read"] + got
+                return b"x" * got
+            return b"\r\n"[:n] if n <= 2 else UNK
+        if nm == "read_until":
+            return read_until(st)
+        if nm == "data_received":
+            if args and isinstance(args[0], (bytes, bytearray)):
+                s_ = stream_of(st)
+                s_.attrs["_delivered"] = s_.attrs["_delivered"] + len(args[0])
+            return None
+        return NotImplemented
+
+    ev = Evaluator(funcs={"parse_hex_int": _hex_hook, "native_str": _to_str_hook, "to_unicode": _to_str_hook}, modset=lambda d: ms.get(d.split(".")[1]))
+    ev.fallback = fb
+    ev.max_unroll = len(sizes) + 3
+    stream = Obj("stream", _pos=0, _delivered=0, _data_read=0, max_buffer_size=10 ** 6)
+    me = Obj("self", stream=stream, is_client=is_client, _write_finished=write_finished, _max_body_size=limit,
+             params=Obj("params", chunk_size=4, max_body_size=10 ** 6))
+    outs = ev.run(fi.node, dict({"self": me}, **{p: Obj("delegate") for p in ps}))
+    res = []
+    for o in outs:
+        s_ = o.state.env["self"].attrs["stream"]
+        res.append((o.kind, o.value if o.kind == "raise" else None, s_.attrs["_delivered"], s_.attrs["_data_read"]))
+    return res
+
+
+CHUNK_SCENARIOS = [
+    # (declared chunk sizes, limit, body admitted?)
+    ((3, 2), 5, True),
+    ((5,), 5, True),
+    ((6,), 5, False),
+    ((3, 3), 5, False),
+    ((2, 2, 2), 5, False),
+    ((4, 1, 1), 5, False),
+    ((1, 1, 1, 1, 1), 5, True),
+]
 
 
 def check_chunked(ck, LIVE, R="C04.chunked-total-limit"):
     fi = _F(ck, H1, "HTTP1Connection._read_chunked_body")
-    cfg = fi.cfg
-    lens = set()
-    for st in q.walk_body(fi.node):
-        if isinstance(st, ast.Assign) and isinstance(st.targets[0], ast.Name) and isinstance(st.value, ast.Call) and q.call_attr(st.value) in ("parse_hex_int", "int"):
-            lens.add(st.targets[0].id)
-    if not lens:
-        raise AnalysisError("_read_chunked_body: parsed chunk length not found")
-    acc = {k: v for k, v in _accumulators(fi).items() if any(q.dotted(s.value) in lens for s in v)}
-    data_nodes = [(n, c) for n, c in call_sites(fi, ".read_bytes") if not isinstance(q.arg(c, 0, "num_bytes"), ast.Constant)]
-    data_nodes += [(n, c) for n, c in cfg.find(lambda x: isinstance(x, ast.Call) and q.call_attr(x) == "data_received")]
-    ck.floor(R, len(data_nodes), 2, "chunk data reads/deliveries")
-    if not acc:
-        for node, c in data_nodes:
-            ck.ob(R, fi, c, False, "chunk data is read/delivered only after the cumulative declared size was compared with the limit (no accumulator of the chunk sizes found)")
-        return
-    if len(acc) != 1:
-        raise AnalysisError("_read_chunked_body: several accumulators of the chunk size")
-    T, adds = next(iter(acc.items()))
-    pred = limit_pred(lambda e: q.dotted(e) == T, lambda e: q.dotted(e) == LIVE)
-    ok_e = atom_edges(cfg, pred)
-    adds_orig = [getattr(s, "_orig", s) for s in adds]
-    add_ids = {n.id for s in adds_orig for n in cfg.nodes_for(s)}
-    for node, c in data_nodes:
-        what = "chunk data is read/delivered only after total declared size <= %s held (live limit)" % LIVE
-        g = only_through(cfg, node, ok_e)
-        if not g:
-            others = [n for n in cfg.stmt_nodes(lambda n: n.kind == "test") if any_cmp(lambda e: q.dotted(e) == T)(canon_atom(n.ast)[0])]
-            if others:
-                what += " — found only %s" % q.unparse(others[0].ast)
-        ck.ob(R, fi, c, g, what)
-    # cumulative: the only writes to T are `T = 0` before the loop and `T += chunk_len` once per chunk before the comparison
-    pm = q.parent_map(fi.node)
-    for st in q.walk_body(fi.node):
-        if isinstance(st, (ast.Assign, ast.AnnAssign, ast.AugAssign)) and T in q.assigned_paths(st) and st not in adds_orig:
-            in_loop = any(isinstance(a, (ast.While, ast.For)) for a in q.ancestors(pm, st))
-            ck.ob(R, fi, st, not in_loop and isinstance(st, (ast.Assign, ast.AnnAssign)) and isinstance(st.value, ast.Constant) and st.value.value == 0, "the running total is initialised to 0 once and never reset inside the loop")
-    len_assign = cfg.stmt_nodes(lambda n: n.kind == "stmt" and isinstance(n.ast, ast.Assign) and isinstance(n.ast.targets[0], ast.Name) and n.ast.targets[0].id in lens)
-    tests = {e[0] for e in ok_e}
-    for la in len_assign:
-        sub = reach_without(cfg, (), start=la.id, follow_exc=False, stop=lambda n: n.id in add_ids)
-        ck.ob(R, fi, la.ast, not (sub & tests), "each parsed chunk size is added to the running total before the total is compared")
-    for s in adds:
-        ck.ob(R, fi, s, q.dotted(s.value) in lens, "the running total grows by the declared chunk size")
-    okr, n = leads_to_raise(cfg, _over_edges(cfg, pred), _is_input_error)
-    ck.ob(R, fi, fi.node, okr and n > 0, "a chunked body above the limit raises HTTPInputError", construct="chunked total over limit -> raise")
+    if LIVE != "self._max_body_size":
+        raise AnalysisError("the live body limit is no longer self._max_body_size: update the chunked scenarios")
+    n = 0
+    for sizes, limit, admitted in CHUNK_SCENARIOS:
+        for is_client in (False, True):
+            outs = eval_chunked(ck, fi, sizes, limit, is_client)
+            if not outs:
+                raise AnalysisError("_read_chunked_body: no outcome for chunk sizes %r" % (sizes,))
+            for kind, exc, delivered, data_read in outs:
+                n += 1
+                tag = "chunk sizes %s, limit %d" % ("+".join(map(str, sizes)), limit)
+                if kind == "raise" and exc is not None and not _is_input_error(exc) and admitted:
+                    raise AnalysisError("_read_chunked_body: unexpected %s while folding %s" % (exc, tag))
+                if admitted:
+                    ck.ob(R, fi, fi.node, kind != "raise" and delivered == sum(sizes), "a chunked body within the live limit is delivered completely [%s -> %s, %d bytes delivered]" % (tag, kind if kind != "raise" else exc, delivered), construct="chunked %s limit=%d admitted" % (sizes, limit))
+                else:
+                    ok_prefix = 0
+                    tot = 0
+                    for sz in sizes:
+                        if tot + sz > limit:
+                            break
+                        tot += sz
+                        ok_prefix = tot
+                    ck.ob(R, fi, fi.node, kind == "raise" and _is_input_error(exc), "a chunked body whose declared sizes add up to more than the live limit raises HTTPInputError [%s -> %s]" % (tag, exc if kind == "raise" else kind), construct="chunked %s limit=%d refused" % (sizes, limit))
+                    ck.ob(R, fi, fi.node, data_read <= ok_prefix and delivered <= limit, "no data of the chunk that crosses the limit is read or delivered (the cumulative size is compared first) [%s: %d body bytes read, %d delivered]" % (tag, data_read, delivered), construct="chunked %s limit=%d nothing past the limit" % (sizes, limit))
+    ck.floor(R, n, 14, "evaluated chunked-body outcomes")
+
+
+def eval_gzip(ck, fi, chunk_len, start_total, limit_setup, chunk_size=8, ratio=4, decompressor=True):
+    """Fold _GzipMessageDelegate.data_received with a stub decompressor whose input bytes inflate ``ratio``-fold.
+    ``limit_setup(self_obj, evaluator)`` installs the limit.  Returns [(kind, exc, forwarded sizes, max_length args)]."""
+    from ..x_absint import Evaluator, Obj, UNK, Raised
+    ps = [p for p in fi.params() if p != "self"]
+
+    def fb(st, c, d, args):
+        nm = q.call_attr(c)
+        if nm == "decompress" and args and isinstance(args[0], (bytes, bytearray)):
+            recv = ev.ev(c.func.value, st)
+            data = bytes(args[0])
+            ml = args[1] if len(args) > 1 else None
+            if ml is None:
+                for k in c.keywords:
+                    if k.arg == "max_length":
+                        ml = ev.ev(k.value, st)
+            me_ = st.env["self"]
+            me_.attrs["_ml_args"] = me_.attrs["_ml_args"] + [ml]
+            produce = ratio * len(data)
+            if isinstance(ml, int) and ml > 0:
+                produce = min(ml, produce)
+            consumed = -(-produce // ratio)
+            if isinstance(recv, Obj):
+                recv.attrs["unconsumed_tail"] = data[consumed:]
+            return b"y" * produce
+        if nm == "data_received":
+            me_ = st.env["self"]
+            me_.attrs["_forwarded"] = me_.attrs["_forwarded"] + [len(args[0]) if args and isinstance(args[0], (bytes, bytearray)) else None]
+            return None
+        return NotImplemented
+
+    ev = Evaluator()
+    ev.fallback = fb
+    ev.max_unroll = chunk_len * ratio // chunk_size + 4
+    dec = Obj("decompressor", unconsumed_tail=b"") if decompressor else None
+    me = Obj("self", _delegate=Obj("inner"), _chunk_size=chunk_size, _decompressed_body_size=start_total, _decompressor=dec, _forwarded=[], _ml_args=[])
+    limit_setup(me, ev)
+    outs = ev.run(fi.node, {"self": me, ps[0]: b"z" * chunk_len})
+    res = []
+    for o in outs:
+        a = o.state.env["self"].attrs
+        res.append((o.kind, o.value if o.kind == "raise" else None, list(a["_forwarded"]), list(a["_ml_args"]), a.get("_decompressed_body_size")))
+    return res
+
+
+def _gzip_limit_forms(ck, init):
+    """candidate ways the delegate can hold its limit, derived from the constructor: for every field initialised from a
+    constructor parameter: the number itself, an object carrying the live field, or a callable returning it"""
+    from ..x_absint import Obj
+    ps = [p for p in init.params() if p != "self"]
+    forms = []
+    live_attr = "_max_body_size"
+    for st in q.walk_body(init.node):
+        if isinstance(st, (ast.Assign, ast.AnnAssign)) and st.value is not None and q.dotted(st.value) in ps:
+            for path in q.assigned_paths(st):
+                if path.startswith("self.") and path.count(".") == 1:
+                    A = path.split(".")[1]
+                    forms.append(("self.%s" % A, lambda me, ev, L, A=A: me.attrs.__setitem__(A, L)))
+                    forms.append(("self.%s.%s" % (A, live_attr), lambda me, ev, L, A=A: me.attrs.__setitem__(A, Obj("connection", **{live_attr: L}))))
+                    forms.append(("self.%s()" % A, lambda me, ev, L, A=A: ev.funcs.__setitem__("self.%s" % A, (lambda st_, *a_: L))))
+    return forms
 
 
 def check_gzip(ck, LIVE, R="C04.decompressed-limit"):
-    repo = ck.repo
     fi = _F(ck, H1, "_GzipMessageDelegate.data_received")
     init = _F(ck, H1, "_GzipMessageDelegate.__init__")
-    cfg = fi.cfg
-    # the decompress call is bounded
-    dec = [(n, c) for n, c in cfg.find(lambda x: isinstance(x, ast.Call) and q.call_attr(x) == "decompress")]
-    ck.floor(R, len(dec), 1, "decompress calls")
-    out_vars = set()
-    for node, c in dec:
-        ml = q.arg(c, 1, "max_length")
-        ck.ob(R, fi, c, ml is not None and not (isinstance(ml, ast.Constant) and not ml.value), "decompress() is called with a max_length bound (a gzip bomb is inflated piecewise)")
-        if isinstance(node.ast, ast.Assign) and isinstance(node.ast.targets[0], ast.Name):
-            out_vars.add(node.ast.targets[0].id)
-    if not out_vars:
-        raise AnalysisError("_GzipMessageDelegate.data_received: decompressed data is not bound to a local")
-    fwd = [(n, c) for n, c in cfg.find(lambda x: isinstance(x, ast.Call) and q.call_attr(x) == "data_received" and x.args and q.dotted(x.args[0]) in out_vars)]
-    ck.floor(R, len(fwd), 1, "forwards of decompressed data")
-    acc = {k: v for k, v in _accumulators(fi).items() if any(isinstance(s.value, ast.Call) and q.call_attr(s.value) == "len" and s.value.args and q.dotted(s.value.args[0]) in out_vars for s in v)}
-    if not acc:
-        for node, c in fwd:
-            ck.ob(R, fi, c, False, "decompressed data is forwarded only after the cumulative decompressed size was compared with the limit (no accumulator found)")
-        return None
-    if len(acc) != 1:
-        raise AnalysisError("_GzipMessageDelegate.data_received: several size accumulators")
-    T, adds = next(iter(acc.items()))
-    # which operand plays the limit?  any `T > X` comparison
-    limits = set()
-    for n in cfg.stmt_nodes(lambda n: n.kind == "test"):
-        a = canon_atom(n.ast)[0]
-        if isinstance(a, ast.Compare) and len(a.ops) == 1 and isinstance(a.ops[0], (ast.Gt, ast.LtE, ast.Lt, ast.GtE)):
-            l, r = _uncast(a.left), _uncast(a.comparators[0])
-            if q.dotted(l) == T:
-                limits.add(q.unparse(r))
-            elif q.dotted(r) == T:
-                limits.add(q.unparse(l))
-    pred = limit_pred(lambda e: q.dotted(e) == T, lambda e: q.unparse(e) in limits)
-    ok_e = atom_edges(cfg, pred)
-    adds_orig = [getattr(s, "_orig", s) for s in adds]
-    add_ids = {n.id for s in adds_orig for n in cfg.nodes_for(s)}
-    for node, c in fwd:
-        ck.ob(R, fi, c, bool(ok_e) and only_through(cfg, node, ok_e), "decompressed data is forwarded only after cumulative decompressed size <= limit held ('>'/'<=' comparison)")
-        sub = reach_without(cfg, (), start=[n for n, _c in dec][0].id, follow_exc=False, stop=lambda n: n.id in add_ids)
-        ck.ob(R, fi, c, node.id not in sub, "every decompressed piece is added to the running total before it is forwarded")
-    pm = q.parent_map(fi.node)
-    for st in q.walk_body(fi.node):
-        if isinstance(st, (ast.Assign, ast.AnnAssign, ast.AugAssign)) and T in q.assigned_paths(st) and st not in adds_orig:
-            ck.ob(R, fi, st, False, "the decompressed total is never reset while a message is being read")
-    okr, n = leads_to_raise(cfg, _over_edges(cfg, pred), _is_input_error)
-    ck.ob(R, fi, fi.node, okr and n > 0, "a body that inflates above the limit raises HTTPInputError", construct="decompressed total over limit -> raise")
+    forms = _gzip_limit_forms(ck, init)
+    if not forms:
+        raise AnalysisError("_GzipMessageDelegate.__init__ keeps none of its constructor arguments")
+
+    def setup(form, L):
+        def f(me, ev):
+            # every other candidate field gets a harmless large value so that only ``form`` can act as the limit
+            for name, inst in forms:
+                if name != form[0] and name.count(".") == 1 and not name.endswith("()") and name.split(".")[1] not in ("_delegate", "_chunk_size"):
+                    me.attrs.setdefault(name.split(".")[1], 10 ** 6)
+            if not (form[0] == "self._chunk_size" or form[0].startswith("self._delegate")):
+                form[1](me, ev, L)
+        return f
+
+    # which field is the limit?  the one whose value decides whether 12 inflated bytes are refused
+    acting = []
+    for form in forms:
+        if form[0].split(".")[1].rstrip("()") in ("_delegate", "_chunk_size"):
+            continue
+        try:
+            small = eval_gzip(ck, fi, 3, 0, setup(form, 10))
+            large = eval_gzip(ck, fi, 3, 0, setup(form, 10 ** 5))
+        except AnalysisError:
+            continue
+        if small and large and all(k == "raise" and _is_input_error(e) for k, e, *_ in small) and all(k != "raise" for k, e, *_ in large):
+            acting.append(form)
+    if not acting:
+        # no constructor-held value bounds the inflated size: with every candidate at 10 the 12 inflated bytes pass
+        probe = eval_gzip(ck, fi, 3, 0, lambda me, ev: [f[1](me, ev, 10) for f in forms if f[0].split(".")[1].rstrip("()") not in ("_delegate", "_chunk_size") and f[0].count(".") == 1 and not f[0].endswith("()")])
+        if probe and all(k != "raise" for k, *_ in probe) and all(None not in fw for _k, _e, fw, *_ in probe):
+            ck.ob(R, fi, fi.node, False, "decompressed data is forwarded only while the cumulative decompressed size is within the limit (12 inflated bytes pass with every limit field at 10)", construct="gzip: no limit applied")
+            return None
+        raise AnalysisError("_GzipMessageDelegate.data_received: cannot identify how the size limit is held")
+    form = acting[0]
+    SC = [
+        # (compressed bytes, total before, limit, pieces forwarded, refused?)
+        (2, 0, 10, [8], False),
+        (3, 0, 10, [8], True),          # second piece (4) would make 12
+        (1, 8, 10, [], True),           # cumulative across calls
+        (2, 2, 10, [8], False),         # exactly the limit
+        (4, 0, 100, [8, 8], False),     # drained completely through unconsumed_tail
+    ]
+    n = 0
+    for clen, start, L, want_fw, refused in SC:
+        outs = eval_gzip(ck, fi, clen, start, setup(form, L))
+        if not outs:
+            raise AnalysisError("gzip data_received: no outcome")
+        for kind, exc, fw, mls, total in outs:
+            n += 1
+            tag = "%d compressed bytes (x4), %d inflated before, limit %d" % (clen, start, L)
+            if None in fw:
+                raise AnalysisError("gzip data_received: forwarded data not decidable")
+            if refused:
+                ck.ob(R, fi, fi.node, kind == "raise" and _is_input_error(exc), "a body that inflates above the limit raises HTTPInputError [%s -> %s]" % (tag, exc if kind == "raise" else kind), construct="gzip %s refused" % tag)
+                ck.ob(R, fi, fi.node, fw == want_fw, "only the pieces within the cumulative limit are forwarded, the crossing piece is not [%s: forwarded %s]" % (tag, fw), construct="gzip %s forwarded" % tag)
+            else:
+                ck.ob(R, fi, fi.node, kind != "raise" and fw == want_fw, "inflated data within the cumulative limit is forwarded completely, piece by piece [%s: %s, forwarded %s]" % (tag, kind if kind != "raise" else exc, fw), construct="gzip %s admitted" % tag)
+            ck.ob(R, fi, fi.node, bool(mls) and all(isinstance(m, int) and 0 < m <= 8 for m in mls), "decompress() is called with a positive max_length (the configured chunk size): a gzip bomb is inflated piecewise [%s]" % tag, construct="gzip bounded decompress")
+    # identity content
+    outs = eval_gzip(ck, fi, 5, 0, setup(form, 10), decompressor=False)
+    for kind, exc, fw, mls, total in outs:
+        ck.ob(R, fi, fi.node, kind != "raise" and fw == [5] and not mls, "without a decompressor the chunk is forwarded unchanged and nothing is inflated [forwarded %s]" % fw, construct="gzip identity pass-through")
+    ck.floor(R, n, 5, "evaluated gzip outcomes")
     for st in q.walk_body(init.node):
-        if isinstance(st, (ast.Assign, ast.AnnAssign)) and T in q.assigned_paths(st):
+        if isinstance(st, (ast.Assign, ast.AnnAssign)) and "self._decompressed_body_size" in q.assigned_paths(st):
             ck.ob(R, init, st, isinstance(st.value, ast.Constant) and st.value.value == 0, "the decompressed total starts at 0")
-    return limits
+    return {form[0]}
 
 
 def check_fresh_limit(ck, LIVE, gz_limits):
@@ -476,12 +639,12 @@ def check_wiring(ck):
     want = {"max_header_size": "max_header_size", "max_body_size": "max_body_size", "chunk_size": "chunk_size", "decompress": "decompress_request"}
     for c in calls:
         for k, src in want.items():
-            v = q.kwarg(c, k)
+            v = _x(fi, q.kwarg(c, k))
             ck.ob(R, fi, c, v is not None and q.dotted(v) == src, "HTTPServer passes its %s as HTTP1ConnectionParameters.%s" % (src, k), construct="%s=%s" % (k, src))
     tcp = [c for c in q.calls(fi.node) if q.dotted(c.func) == "TCPServer.__init__"]
     ck.floor(R, len(tcp), 1, "TCPServer.__init__ calls in HTTPServer.initialize")
     for c in tcp:
-        v = q.kwarg(c, "max_buffer_size")
+        v = _x(fi, q.kwarg(c, "max_buffer_size"))
         ck.ob(R, fi, c, v is not None and q.dotted(v) == "max_buffer_size", "HTTPServer passes its max_buffer_size to the stream factory (TCPServer)", construct="max_buffer_size=max_buffer_size")
     hs = _F(ck, HS, "HTTPServer.handle_stream")
     cc = [c for c in q.calls(hs.node) if q.call_attr(c) == "HTTP1ServerConnection"]
